@@ -57,6 +57,7 @@ func h64(seed int64, s string, k int) uint64 {
 }
 
 func hook(point string, args ...any) {
+	observe(point, args...)
 	mu.Lock()
 	occ[point]++
 	seen[point]++
